@@ -70,7 +70,8 @@ def make_case(rng, i, tier):
     if not irregular:
         for _ in range(4):
             pieces.append(tc.valid_piece(rng, cfg, stratum="A" if _ < 3 else "B", nseg=(1, 2), nbars=(1, 2), max_notes=5))
-    return {"cfg": cfg, "pieces": pieces, "stratum": "V" if irregular else "R", "sibling": None if irregular else sib, "sibling_differs_in": which}
+    return {"cfg": cfg, "pieces": pieces, "stratum": "V" if irregular else "R", "sibling": None if irregular else sib, "sibling_differs_in": which,
+            "rejected_first": tc.REJECTED_CONSTRUCTORS[(i // 3) % len(tc.REJECTED_CONSTRUCTORS)] if (i % 3 == 1 and not irregular) else None}
 
 
 def classify(f, case):
@@ -86,6 +87,10 @@ def run(case, ctx):
     from vmon.monitors import LOG
     cfg = case["cfg"]
     fails = []
+    if case.get("rejected_first"):
+        # a constructor call with an equal-looking configuration that the tokeniser rejects comes first (same process)
+        r = tc.rejected_constructor(cfg, case["rejected_first"])
+        LOG.n(f"c02.rejected_constructor.{'raised' if r else 'accepted'}.{case['rejected_first']}")
     try:
         tok = tc.make_tok(cfg, cache=False)
     except Exception as e:
